@@ -101,7 +101,7 @@ def gen_rule(rng, t, k):
 
 def run(ctx):
     rng = ctx.rng
-    n = (120 if ctx.quick else 1500) * (3 if ctx.search else 1)
+    n = (300 if ctx.quick else 1500) * (3 if ctx.search else 1)
     for _ in range(n):
         a, o, t = valid_configurator(rng, ctx.quick, top_items=True)
         rules = []
